@@ -263,7 +263,7 @@ def corpus_cases():
     out = []
     if os.path.isdir(d):
         for f in sorted(os.listdir(d)):
-            if f.endswith(".case"):
+            if f.endswith(".case") or (f.endswith(".case.pending") and os.environ.get("LTV_C01_PENDING") == "1"):
                 for l in open(os.path.join(d, f)):
                     l = l.strip()
                     if l and not l.startswith("#"):
